@@ -48,4 +48,40 @@ def insertNat (x : Nat) : List Nat → List Nat
 
 def canonSet (l : List Nat) : List Nat := l.foldl (fun acc x => insertNat x acc) []
 
+/-- s-expressions: `(head arg ...)`, atoms are space-free strings -/
+inductive SExp where
+  | atom (s : String)
+  | list (xs : List SExp)
+deriving Repr, Inhabited
+
+def tokenizeSexp (s : String) : List String :=
+  let s := (s.replace "(" " ( ").replace ")" " ) "
+  (s.splitOn " ").filter (· ≠ "")
+
+/-- parse one s-expression from a token list (fuel = token count) -/
+def parseSexpAux : Nat → List String → Option (SExp × List String)
+  | 0, _ => none
+  | _, [] => none
+  | fuel + 1, tok :: rest =>
+    if tok = "(" then
+      let rec items (f : Nat) (ts : List String) (acc : List SExp) : Option (List SExp × List String) :=
+        match f, ts with
+        | 0, _ => none
+        | _, [] => none
+        | f + 1, ")" :: ts' => some (acc.reverse, ts')
+        | f + 1, ts => match parseSexpAux fuel ts with
+          | some (e, ts') => items f ts' (e :: acc)
+          | none => none
+      match items (fuel + 1) rest [] with
+      | some (xs, rest') => some (SExp.list xs, rest')
+      | none => none
+    else if tok = ")" then none
+    else some (SExp.atom tok, rest)
+
+def parseSexp (s : String) : Option SExp :=
+  let toks := tokenizeSexp s
+  match parseSexpAux (toks.length + 1) toks with
+  | some (e, []) => some e
+  | _ => none
+
 end Drv
